@@ -595,8 +595,14 @@ impl<Db: KvDatabase> CurrentBatch<Db> {
         let to_commit_logical_batches =
             std::mem::take(&mut self.processed_logical_batch);
 
+        #[cfg(feature = "verif")]
+        crate::verif::point("wb:before_commit");
+
         // commit physical batch
         to_commit_db_batch.commit();
+
+        #[cfg(feature = "verif")]
+        crate::verif::point("wb:after_commit");
 
         // after commit actions
         for mut logical_batch in to_commit_logical_batches {
@@ -746,6 +752,9 @@ impl<Db: KvDatabase> WriteBehind<Db> {
 
             task.write_buffer.after_commit(epoch);
             pool.return_buffer(task.write_buffer);
+
+            #[cfg(feature = "verif")]
+            crate::verif::point("wb:after_commit_done");
         }
     }
 
@@ -760,6 +769,9 @@ impl<Db: KvDatabase> WriteBehind<Db> {
 
             let mut serialization_buffer = db.serialization_buffer();
             task.write_buffer.write_to_db(&mut serialization_buffer);
+
+            #[cfg(feature = "verif")]
+            crate::verif::point("wb:serialized");
 
             sender
                 .send(WriteTask {
